@@ -217,7 +217,12 @@ def rule_J1(ctx, cfgs, rule='J1'):
 
 
 J2_EXEMPT = {'m4ri_mmc_malloc', 'm4ri_mmc_free', 'm4ri_mmc_cleanup', 'm4ri_mmc_calloc', 'mzd_t_malloc', 'mzd_t_free', 'm4ri_fini', 'm4ri_init'}
-CACHE_GLOBALS = {'m4ri_mmc_cache', 'mzd_cache', 'current_cache', 'm4ri_mmc_free.j'}
+CACHE_GLOBALS = {'m4ri_mmc_cache', 'mzd_cache', 'current_cache'}
+
+
+def _is_cache_global(name):
+    """the allocator caches and any function-local static of the allocator functions (the eviction cursor), whatever it is called"""
+    return name in CACHE_GLOBALS or name.split('.')[0] in J2_EXEMPT
 
 
 def _norm_summary(S):
@@ -225,13 +230,13 @@ def _norm_summary(S):
     for (r, part) in S.writes:
         if r[0] == 'p':
             w.add(('p', r[1], part))
-        elif r[0] == 'g' and r[1] not in CACHE_GLOBALS:
+        elif r[0] == 'g' and not _is_cache_global(r[1]):
             w.add(('g', r[1]))
     rets = set()
     for (r, part) in S.rets:
         if r[0] == 'p':
             rets.add(('p', r[1], part))
-        elif r[0] in ('fresh',) or (r[0] == 'g' and r[1] in CACHE_GLOBALS):
+        elif r[0] in ('fresh',) or (r[0] == 'g' and _is_cache_global(r[1])):
             rets.add(('fresh',))
         else:
             rets.add((r[0], r[1]))
